@@ -60,22 +60,16 @@ def linspace_rules(run, F):
         fn = [f for f in F.fns if f.crate == 'tea_core' and f.file.endswith('linspace.rs') and
               f.qpath.endswith(q)][0]
         t = N.tbl(fn)
-        some = [(cs, l, ef) for cs, l, ef in t if l.startswith('Some(')]
-        none = [(cs, l, ef) for cs, l, ef in t if l == 'NULL']
-        idx = 'self.index' if q.endswith('::next') else 'self.len'
-        ok = len(some) == 1 and len(none) == 1 and \
-            re.sub(r'\s+', '', some[0][1]) in ('Some((self.start+(self.step*i)))', 'Some((self.start+(i*self.step)))',
-                                               'Some((self.start+(self.step*%s)))' % idx,
-                                               'Some(((self.step*i)+self.start))', 'Some(((i*self.step)+self.start))') and \
-            none[0][0] == frozenset({'(self.len <= self.index)'}) and \
-            some[0][0] == frozenset({'(self.index < self.len)'})
-        # `i` must be the pre-increment index (next) / post-decrement len (next_back)
-        effs = list(some[0][2]) if some else []
+        # `i` is the pre-increment index (next) / the post-decrement len (next_back)
         if q.endswith('::next'):
-            ok = ok and effs == ['i := self.index', 'self.index AddAssign 1'] or \
-                ok and some[0][1].count('self.index') == 1 and effs == ['self.index AddAssign 1']
+            want = N.T((['(self.index < self.len)'], 'Some(((self.step * i) + self.start))',
+                        ['i := self.index', 'self.index AddAssign 1']),
+                       (['(self.len <= self.index)'], 'NULL', []))
         else:
-            ok = ok and effs == ['self.len SubAssign 1', 'i := self.len']
+            want = N.T((['(self.index < self.len)'], 'Some(((self.step * i) + self.start))',
+                        ['self.len SubAssign 1', 'i := self.len']),
+                       (['(self.len <= self.index)'], 'NULL', []))
+        ok = t == want
         run.ob('GEN.linspace', fn, 'Linspace::%s element' % fn.name, ok, fn.loc(),
                'table %s' % dtree.show(t))
     fn = one('linspace::linspace')
